@@ -379,6 +379,7 @@ static void run(CgreenTest *spec)
 void run_the_test_code(TestSuite *suite, CgreenTest *spec, TestReporter *reporter)
 {
     significant_figures_for_assert_double_are(8);
+    cgreen_mocks_are(strict_mocks);
     clear_mocks();
 
     if (per_test_timeout_defined())
